@@ -803,6 +803,9 @@ func validate(c *Case, p *Prepared, rep *Report) {
 			}
 		} else if lastFiring && rep.Err != nil && !IsCycleLimitErr(rep.Err) && strings.Contains(rep.Err.Error(), "executing rule") && c.ProbeFailAt == 0 && !c.UseContext {
 			rep.add("C04", "rule %s: the engine reports an action error the reference does not predict: %v", ex.Rule, rep.Err)
+			if len(retracted) > 0 {
+				rep.add("C10", "after Retract of %v an action of rule %s, which was not retracted, fails although nothing in it can fail: %v", names(retracted), ex.Rule, rep.Err)
+			}
 		}
 		if post != nil {
 			if d := facts.Diff(model, post); len(d) > 0 {
@@ -814,6 +817,9 @@ func validate(c *Case, p *Prepared, rep *Report) {
 					d = append(d[:6], "...")
 				}
 				rep.add(prop, "cycle %d: after firing %s the facts differ from the reference replay of its actions: %s", cy.n, ex.Rule, strings.Join(d, "; "))
+				if len(retracted) > 0 && !retracted[ex.Rule] {
+					rep.add("C10", "cycle %d: after Retract of %v the actions of rule %s, which was not retracted, no longer have their effect: %s", cy.n, names(retracted), ex.Rule, strings.Join(d, "; "))
+				}
 				rep.add("C03", "cycle %d: actions of %s not applied completely/exactly before the next cycle", cy.n, ex.Rule)
 			}
 		}
